@@ -41,6 +41,14 @@ def jobs(tier):
                                   "_vnacal_new_solve_next_term"],
                        bound="%s 2x2, two over-determined systems with unknowns+1 and unknowns+2 equations, all measurements 1" % t,
                        timeout=400))
+    for t in (["VNACAL_UE14", "VNACAL_T8"] if tier == "quick" else types):
+        d = C20.CUT + ["-DCAL_TYPE=%s" % t, "-DH_PVALUE", "-DVERIF_CUT_pvalue_before_chisq=__CPROVER_assume(0)"]
+        J.append(V.Job("pvalue_variance.%s" % t[7:], H, "h_pvalue_variance", srcs, defines=d, unwind=16, union_struct=True,
+                       kind="bounded", canary=False,
+                       functions=["_vnacal_new_solve_calc_pvalue (variance per equation; ghost assertion in place)"],
+                       require=[r"variance of an equation's residual is taken from that equation's own measurement"],
+                       bound="%s 2x2, short@1, open@2, through; concrete distinct measurements, nf = tr = 1; numeric tail (chisq_pvalue) cut" % t,
+                       timeout=300, cbmc_flags=["--no-leak"]))
     for j in C10.jobs("quick"):
         if j.name in ("range.m_error", "spline.knots.n1", "spline.knots.n2", "spline.linear"):
             j.name = "noise_grid." + j.name      # clause: noise vectors on their own grid pass through the given points
